@@ -272,6 +272,9 @@ func isSet(bit int, g Graph) bool {
 }
 
 func (g Graph) GoString() string {
+	if !IsValid(g) {
+		return ""
+	}
 	bin, m6 := binary(g)
 	format := fmt.Sprintf("%%d:%%0%db", m6)
 	return fmt.Sprintf(format, numberOf(g), bin)
